@@ -15,6 +15,7 @@ func TestWorker(t *testing.T) {
 		"C05": C05,
 		"C07": C07,
 		"C09": C09,
+		"C16": C16,
 	}, map[string]sim.Options{
 		"C01": {PanicIsViolation: true},
 		"C02": {PanicIsViolation: true},
@@ -23,5 +24,6 @@ func TestWorker(t *testing.T) {
 		"C05": {PanicIsViolation: true},
 		"C07": {PanicIsViolation: true},
 		"C09": {PanicIsViolation: true},
+		"C16": {PanicIsViolation: true, Bubble: true},
 	})
 }
